@@ -3,7 +3,7 @@ CFG = {
  'harness': 'det',
  'model': 'det',
  # each case line is answered by the extraction unit of the decoder it belongs to
- 'model_units': ['det', 'c03', 'c05', 'c08'],
+ 'model_units': ['c07w', 'det', 'c03', 'c05', 'c08'],
  # the cases are also run through a second build of the harness WITH overflow checks; both builds must agree
  'profiles': ['release', 'dev'],
  'axioms': [],
@@ -22,7 +22,7 @@ CFG = {
              'rustc/LLVM/std slice, str and integer semantics as encoded in Base/Res.v, Base/Bytes.v, Ident/Names.v '
              '(index/slice/str-slice/unwrap panic exactly when Rust\'s do; arithmetic panics in mode Checked, wraps in mode Wrapping)',
              'memory allocation never fails (Vec::with_capacity etc. are not modelled)',
-             'winnow 0.6.1 combinators on complete input as modelled in Codec/Chrono.v',
+             'winnow 0.6.1 combinators on complete input as transcribed from the winnow source in Codec/Winnow.v (chronobox.rs over them in Codec/ChronoWinnow.v, proved equal to Codec/Chrono.v)',
              'tools/gen.py translator (board tables regenerated each run)'],
  'level_text': ('Coq theorems, for all byte lists / strings and both overflow modes, no bound on length: adc_decode, chunk_decode, '
                 'pwb_decode, reasm (any admissible sort, chunks being decoder outputs), trg_decode and the ten bank-name parsers '
